@@ -294,7 +294,10 @@ class ComplexValue(ScalarValue):
 
     def __init__(self, value):
         """Initialise."""
-        ScalarValue.__init__(self, complex(value))
+        value = complex(value)
+        # Adding 0.0 turns a real part of -0.0 into 0.0: the two compare
+        # equal but would enter repr (and with it the hash) differently
+        ScalarValue.__init__(self, complex(value.real + 0.0, value.imag))
 
     def modulus(self):
         """Get the modulus."""
